@@ -18,6 +18,8 @@ inductive Tok where
   | lpar | rpar | comma
   | plus | minus | star | slash
   | ampamp | barbar | bang | arrow | darrow      -- `&&` `||` `!` `->` `<->`
+  -- program level (C11): NEWLINE, `:`, the `comparison` rule, `s.t.`
+  | nl | colon | le | ge | eq | lt | gt | st
   deriving Repr, DecidableEq, Inhabited
 
 inductive LexRes where
@@ -55,6 +57,11 @@ def dropLine : List Char → List Char
   | '\n' :: rest => '\n' :: rest
   | _ :: rest => dropLine rest
 
+/-- the rest of `^"s.t."` after its first letter -/
+def dotTDot : List Char → Bool
+  | '.' :: t :: '.' :: _ => t == 't' || t == 'T'
+  | _ => false
+
 /-- `prevWord`: the previous token is a word (a following word starting with `_` would be glued to it
 by `compound_variable`, which is outside the modelled sub-language). -/
 def lexAux : Nat → List Char → Bool → List Tok → LexRes
@@ -64,6 +71,17 @@ def lexAux : Nat → List Char → Bool → List Tok → LexRes
     | [] => .ok acc.reverse
     | c :: rest =>
       if c == ' ' || c == '\t' then lexAux fuel rest prevWord acc
+      else if c == '\n' then lexAux fuel rest false (.nl :: acc)
+      else if c == '\r' then
+        match rest with
+        | '\n' :: r => lexAux fuel r false (.nl :: acc)
+        | _ => lexAux fuel rest false (.nl :: acc)
+      else if c == ':' then lexAux fuel rest false (.colon :: acc)
+      else if c == '=' then lexAux fuel rest false (.eq :: acc)
+      else if c == '>' then
+        match rest with
+        | '=' :: r => lexAux fuel r false (.ge :: acc)
+        | _ => lexAux fuel rest false (.gt :: acc)
       else if c == '/' then
         match rest with
         | '/' :: r => lexAux fuel (dropLine r) prevWord acc
@@ -85,7 +103,8 @@ def lexAux : Nat → List Char → Bool → List Tok → LexRes
       else if c == '<' then
         match rest with
         | '-' :: '>' :: r => lexAux fuel r false (.darrow :: acc)
-        | _ => .unsupported
+        | '=' :: r => lexAux fuel r false (.le :: acc)
+        | _ => lexAux fuel rest false (.lt :: acc)
       else if c == '&' then
         match rest with
         | '&' :: r => lexAux fuel r false (.ampamp :: acc)
@@ -107,6 +126,9 @@ def lexAux : Nat → List Char → Bool → List Tok → LexRes
       else if c == '$' then
         let (run, r) := spanWhile isWordChar rest
         if isSimpleRun run then lexAux fuel r true (.word (String.ofList (c :: run)) :: acc) else .unsupported
+      else if (c == 's' || c == 'S') && dotTDot rest then
+        -- `^"s.t."`
+        lexAux fuel (rest.drop 3) false (.st :: acc)
       else if isLetter c || c == '_' then
         let (run, r) := spanWhile isWordChar (c :: rest)
         if c == '_' && prevWord then .unsupported
